@@ -1192,6 +1192,8 @@ def run(ctx):
     from . import wslint
     wslint.run(ctx, "C03.16")
     html_namespace_tests(ctx)
+    from .c06 import bom_read_and_seek
+    bom_read_and_seek(ctx, "C03.17", "C03.18")
     dispatch_total(ctx)
     from . import c03_tok
     c03_tok.run(ctx)
@@ -1205,6 +1207,9 @@ def thorough(ctx):
 def mutants():
     from ..selftest import TextMutant as T
     return [
+        T("bom-single-read", "_inputstream.py", "        while len(string) < 4:\n            more = self.rawStream.read(4 - len(string))\n            if not more:\n                break\n            string += more\n", "", "C03.18"),
+        T("bom-seek-constant", "_inputstream.py", "        encoding = None\n        seek = 0\n        for bom, name in bomDict.items():\n            if string.startswith(bom):\n                encoding = name\n                seek = len(bom)\n                break\n",
+          "        encoding = bomDict.get(string[:3])\n        seek = 3\n        if not encoding:\n            encoding = bomDict.get(string[:2])\n            seek = 2\n", "C03.17"),
         T("foreign-endtag-constant-ns", "html5parser.py", "            if node.namespace != self.tree.defaultNamespace:\n                continue\n            else:\n                new_token = self.parser.phase.processEndTag(token)", "            if node.namespace != namespaces[\"html\"]:\n                continue\n            else:\n                new_token = self.parser.phase.processEndTag(token)", "C03.14"),
         T("dom-removechild-unguarded", "treebuilders/dom.py", "            if node.element.parentNode == self.element:\n                self.element.removeChild(node.element)", "            self.element.removeChild(node.element)", "C03.15"),
         T("table-eof-name-only", "html5parser.py", "        if (self.tree.openElements[-1].name != \"html\" or\n                self.tree.openElements[-1].namespace != self.tree.defaultNamespace):\n            self.parser.parseError(\"eof-in-table\")",
